@@ -21,7 +21,7 @@ OWNERS = {S + '::append_batch', S + '::persist_messages', S + '::load_from_disk'
 EXPECTED_OPERANDS = {   # (fn, group) -> (op, operand): confirmed by reading
     (S + '::append_batch', 'size'): ('fetch_add', 'batch_size'), (S + '::append_batch', 'messages'): ('fetch_add', 'messages_count'),
     (S + '::persist_messages', 'size'): ('fetch_add', '24'),     # RETAINED_BATCH_HEADER_LEN
-    (S + '::load_from_disk', 'size'): ('fetch_add', 'Atomic::load(self.log_size_bytes, Ordering::Acquire{})'), (S + '::load_from_disk', 'messages'): ('fetch_add', 'Segment::get_messages_count(self)'),
+    (S + '::load_from_disk', 'size'): ('fetch_add', 'phi{Atomic::load(self.log_size_bytes, Ordering::Acquire{}) | Option::filter(phi{0 | Option::None{} | SegmentLogReader::batch_end_position(…)}, closure)}'), (S + '::load_from_disk', 'messages'): ('fetch_add', 'Segment::get_messages_count(self)'),
     (S + '::delete', 'size'): ('fetch_sub', 'self.size_bytes'), (S + '::delete', 'messages'): ('fetch_sub', 'Segment::get_messages_count(self)'),
 }
 METRIC_SOURCES = {'streams': ('streams', '1'), 'topics': ('topics_count', 'topics', '1'), 'partitions': ('partitions_count', 'partitions'),
